@@ -24,7 +24,7 @@ tn=$(grep -o 'func Test[A-Za-z0-9_]*' $src/demo_test.go | head -1 | sed 's/func 
 clean=$(cd $wt && go test $rf -vet=off -count=1 -run "^$tn\$" ./$dd/ 2>&1 | tail -1)
 git -C $wt apply $src/patch.diff || { echo "patch does not apply"; exit 2; }
 rm $wt/$dd/zz_seeded_demo_test.go
-suite=$(cd $wt && go test -vet=off -count=1 ./pkg/... ./test/... 2>&1 | grep -v 'no test files' | tr '\n' ';')
+suite=$(cd $wt && go test -vet=off -count=1 ./pkg/... ./test/... 2>&1 | grep -E '^(ok|FAIL|--- FAIL|panic)' | cut -c1-200 | tr '\n' ';')
 cp $src/demo_test.go $wt/$dd/zz_seeded_demo_test.go
 demo=$(cd $wt && go test $rf -vet=off -count=1 -run "^$tn\$" ./$dd/ 2>&1 | grep -E '^(--- FAIL|FAIL|ok)' | head -2 | tr '\n' ';')
 rm $wt/$dd/zz_seeded_demo_test.go
